@@ -937,6 +937,35 @@ def unblock_only_on_complete(ctx: Ctx):
                 yield ctx.ob('C02.UNBLOCK-ONLY-ON-COMPLETE', ok, f2, w.node, f'{w.kind} on {PD} in {phase} phase',
                              '' if ok else f'{PD} is modified ({w.kind}) in the {phase} phase: dependents may be unblocked '
                              'before their dependency finished')
+    # in the completion method a pending-dependency set loses exactly the finished task: clearing it, popping from it,
+    # or removing another task (directly or through a local bound to the set) unblocks a dependent whose other
+    # dependencies are still running
+    cm = st.complete_method
+    csn = cm.self_name
+    tparam = [a.arg for a in cm.params if a.arg != csn][0]
+
+    def _is_pd_item(e):
+        return isinstance(e, ast.Subscript) and isinstance(e.value, ast.Attribute) and e.value.attr == PD \
+            and isinstance(e.value.value, ast.Name) and e.value.value.id == csn
+    aliases = {t.id for a in walk_local(cm.node) if isinstance(a, ast.Assign) and _is_pd_item(a.value)
+               for t in a.targets if isinstance(t, ast.Name)}
+    aliases |= {a.target.id for a in walk_local(cm.node) if isinstance(a, ast.AnnAssign) and a.value is not None
+                and _is_pd_item(a.value) and isinstance(a.target, ast.Name)}
+    for c2 in calls_in(cm.node):
+        if not (isinstance(c2.func, ast.Attribute) and (_is_pd_item(c2.func.value)
+                                                        or isinstance(c2.func.value, ast.Name) and c2.func.value.id in aliases)):
+            continue
+        m = c2.func.attr
+        if m in ('remove', 'discard'):
+            okx = bool(c2.args) and isinstance(c2.args[0], ast.Name) and c2.args[0].id == tparam
+        elif m in ('clear', 'pop', 'difference_update', 'intersection_update', 'symmetric_difference_update'):
+            okx = False
+        else:
+            continue
+        yield ctx.ob('C02.UNBLOCK-ONLY-ON-COMPLETE', okx, cm, c2, f'a pending-dependency set loses only the finished task ({m})',
+                     '' if okx else f'`{src(c2)}` takes more than the finished task `{tparam}` out of a dependent\'s pending '
+                     'dependencies: the dependent becomes ready while another of its dependencies is still unfinished',
+                     construct=f'pd-loses-only-finished:{m}')
     cl = roles.consumer_loops(ctx)[0]
     for (f, call) in ctx.P.callers_of(st.complete_method.qualname):
         inside = any(x is call for x in ast.walk(cl.loop)) and f.qualname == cl.fn.qualname
